@@ -358,6 +358,10 @@ def build(specs):
         elif t in ('dict', 'mydict'):
             for k, j in s['k']:
                 objs[i][mk_key(k)] = objs[j]
+            if s.get('big'):
+                # a HUGE mapping, kept compact in the case: n more str keys, all bound to one object
+                for n in range(s['big']['n']):
+                    objs[i]['k%05d' % n] = objs[s['big']['v']]
         elif t == 'obj':
             for name, j in s['a']:
                 objs[i].__dict__[name] = objs[j]
@@ -550,7 +554,7 @@ def action_config(act, case):
     if act.get('log') is not None:
         cfg['log_msg'] = act['log']
     if case.get('capture'):
-        cfg['stage'] = 'line_capture'
+        cfg['stage'] = case.get('stage', 'line_capture')
     cfg['fire_count'] = '-1'
     return cfg
 
@@ -571,7 +575,12 @@ def host_source(case):
                  'def host(%s):' % ', '.join(names),
                  '    return Alpha().walk([Beta(), Alpha()]%s)' % params]
         return '\n'.join(lines) + '\n', 5
-    lines = ['def host(%s):' % ', '.join(names)]
+    lines = []
+    if case.get('capture_helper'):
+        # the captured value is built in a function of its own: a loop (comprehension) on the tracepoint's own line would give
+        # a second 'line' event in the host function, which completes a deferred snapshot before the return / raise
+        lines += ['def big():', '    return %s' % case['capture_helper']]
+    lines.append('def host(%s):' % ', '.join(names))
     if case.get('locals_self'):
         lines.append('    %s = locals()' % case['locals_self'])
     cap = case.get('capture')
@@ -730,10 +739,15 @@ def _drive(case, objs, act_ids):
         if case.get('mock'):
             # a chain of frame-like objects (multi-frame cases: the real thread stack below a host function holds
             # interpreter and harness frames)
+            # a local given as {'frame': k} is bound to the f_locals dict of frame k of the chain (a caller's `locals()` handed
+            # to a callee, or the other way round)
+            dicts = [dict() for _ in case['mock']]
+            for i, fr in enumerate(case['mock']):
+                for n, j in fr:
+                    dicts[i][n] = dicts[j['frame']] if isinstance(j, dict) else objs[j]
             chain = None
-            for fr in reversed(case['mock']):
-                loc = {n: objs[j] for n, j in fr}
-                chain = MockFrame(HOST_FILE, 'host', line, loc, f_back=chain, f_globals=glb)
+            for i in reversed(range(len(dicts))):
+                chain = MockFrame(HOST_FILE, 'host', line, dicts[i], f_back=chain, f_globals=glb)
             f = chain
             while f is not None:
                 frames_locals.append(f.f_locals)
@@ -1013,8 +1027,14 @@ def model_request(case, obs):
         # from the same scripted clock the real collector read
         frames = [{'locals': obs['frames_locals'][i], 'selected': bool(selects(ft, i))}
                   for i in range(len(obs['frames_locals']))]
-        watches = [{'src': k, 'expr': e, 'value': v} for k, e, v in obs['watch_roots'][ai]]
-        acts.append({'limits': lim, 'frames': frames, 'watches': watches, 'max_ms': max_ms_of(a)})
+        watches = [{'src': k, 'expr': e, 'value': v} for k, e, v in obs['watch_roots'][ai] if k != 'capture']
+        act = {'limits': lim, 'frames': frames, 'watches': watches, 'max_ms': max_ms_of(a)}
+        caps = [(e, v) for k, e, v in obs['watch_roots'][ai] if k == 'capture']
+        if caps:
+            # every capture of these checks is a DEFERRED one (stage line_capture / method_capture): the value is collected
+            # later, by the callback, through the same action context (Collector.deferredSnapshot)
+            act['deferred'] = {'event': caps[0][0], 'value': caps[0][1]}
+        acts.append(act)
     script = clock_of(case) or [0]
     return {'op': 'collect', 'heap': [fix_heap(o) for o in obs['heap']], 'actions': acts,
             'clock': {'ts': TS, 'reads': [TS + x for x in script]}}
@@ -1480,6 +1500,85 @@ def gen_case(rng, lim=None, nobj=None, hostile=0.0, outside=False, nactions=1, s
     return case
 
 
+BIG_RETURNS = ['{"r%d" % i: "ret-%d" % i for i in range(60)}', '{i: [i, i + 1000] for i in range(1000, 1040)}',
+               '[[i, i + 1000, str(i)] for i in range(2000, 2040)]', 'dict((str(i), str(i) * 3) for i in range(3000, 3050))',
+               '[{"a": i + 4000, "b": [i + 5000]} for i in range(30)]', '"y" * 5000', '[[[[[[7000]]]]]]']
+BIG_RAISES = ['ValueError({"e%d" % i: "err-%d" % i for i in range(60)})', 'KeyError(*[[i + 6000] for i in range(40)])',
+              'RuntimeError([[i, i + 1000] for i in range(2000, 2040)], "x" * 3000)']
+
+
+def gen_frame_locals(rng):
+    """MockFrame chains in which a local of one frame IS the f_locals dict of another frame of the chain (a function handed
+    its caller's `locals()`, or a caller holding the namespace of a callee): instances of the recorded finding
+    C07/locals-dict-self-reference when that other frame is collected too (the unwrap deletes the entry the local refers to)."""
+    nfr = rng.choice([2, 2, 3])
+    c = gen_case(rng, nobj=rng.choice([3, 6, 10]), mock_frames=nfr, stream='frame-locals', watches=rng.random() < 0.3,
+                 frame_type=rng.choice(['all_frame', 'all_frame', 'all_frame', 'single_frame']))
+    i = rng.randrange(nfr)
+    k = rng.choice([x for x in range(nfr) if x != i] + ([i] if rng.random() < 0.2 else []))
+    fr = list(c['mock'][i])
+    fr.insert(rng.randint(0, len(fr)), ['ns_%d' % k, {'frame': k}])
+    c['mock'] = c['mock'][:i] + [fr] + c['mock'][i + 1:]
+    return c
+
+
+def gen_huge(rng):
+    """one HUGE mapping (10 001 … 30 000 entries — mappings are not capped by the collection limit) reachable from the frame
+    while other values still wait in the search: as an early local, or as an attribute of the first local, followed by
+    locals that have children of their own.  All its entries are bound to one object, so the variable budget is not what
+    ends the search.  Every later local must still be on the frame, with its children."""
+    c = gen_case(rng, nobj=rng.choice([6, 10]), watches=False, stream='huge', small=False,
+                 lim={'vars': rng.choice([None, None, 40000]), 'str': None, 'coll': None, 'depth': None})
+    specs = c['objs']
+    n = rng.choice([10001, 10001, 10050, 12000, 15000, 30000])
+    specs.append({'t': 'int', 'v': 77777})
+    one = len(specs) - 1
+    specs.append({'t': 'dict', 'k': [[{'s': 'first'}, one]], 'big': {'n': n, 'v': one}})
+    big = len(specs) - 1
+    # later locals with children of their own
+    specs.append({'t': 'list', 'e': [one, one, one]})
+    specs.append({'t': 'dict', 'k': [[{'s': 'x'}, one], [{'s': 'y'}, len(specs) - 1]]})
+    tail = [['after_list', len(specs) - 2], ['after_dict', len(specs) - 1], ['after_int', one]]
+    locs = [l for l in c['locals'] if l[0] not in ('self', 'cls')][:3]
+    if rng.random() < 0.5:
+        head = [['cache', big]]
+        c['huge'] = 'local'
+    else:
+        specs.append({'t': 'obj', 'a': [['cache', big], ['size', one]]})
+        head = [['holder', len(specs) - 1]]
+        c['huge'] = 'attribute'
+    k = rng.randint(0, min(1, len(locs)))
+    c['locals'] = locs[:k] + head + locs[k:] + tail
+    return c
+
+
+def gen_deferred(rng):
+    """deferred snapshots (stage line_capture / method_capture): the frame (and the watches) already used most or all of the
+    variable budget when the tracepoint line was reached; the snapshot is completed LATER, by the callback at the return /
+    exception event of that line, with a large returned / raised value (a wide dict — dicts are not capped by the collection
+    limit —, nested lists, a long string, a deep chain, or one of the locals again).  Bounds are judged over the WHOLE pushed
+    snapshot: frame + watches + captured value share one budget and one set of limits."""
+    vars_ = rng.choice([3, 10, 25, 30, 30])
+    lim = {'vars': vars_, 'str': rng.choice([8, 64, None]), 'coll': rng.choice([3, 5, None]), 'depth': rng.choice([3, 4, None])}
+    cap = rng.choice(['return', 'return', 'exception'])
+    nobj = rng.choice([16, 25, 40, 70]) if vars_ > 3 else rng.choice([6, 10, 16])
+    c = gen_case(rng, lim=lim, nobj=nobj, capture=cap, watches=rng.random() < 0.4, stream='deferred')
+    c['stage'] = rng.choice(['line_capture', 'line_capture', 'method_capture'])
+    names = [nm for nm, _ in c['locals']]
+    r = rng.random()
+    if cap == 'return':
+        if r < 0.75 or not names:
+            c['capture_helper'], c['capture_expr'] = rng.choice(BIG_RETURNS), 'big()'
+        else:
+            c['capture_expr'] = rng.choice(['[%s, %s]' % (names[0], names[-1]), names[0],
+                                            '{"again": %s, "new": list(range(8000, 8040))}' % names[-1]])
+    elif r < 0.8 or not names:
+        c['capture_helper'], c['capture_expr'] = rng.choice(BIG_RAISES), 'big()'
+    else:
+        c['capture_expr'] = 'ValueError(%s, list(range(9000, 9040)))' % names[0]
+    return c
+
+
 def gen_clock(rng, nobj=None):
     """the time-budget stream: a MockFrame chain of 1-5 frames, frame type mostly all_frame, 1-2 actions with budgets from
     {default, 0, 1, 50, 100, 250} ms, and a clock script of readings around the boundary (budget -1 ns / exactly / +1 ns / +1 ms,
@@ -1623,6 +1722,10 @@ def judge_bounds(case, obs, live, ai, s):
     return v
 
 
+_NO_TARGET = object()
+D31_TAG = ' [made for the locals dict of a collected frame: C07/locals-dict-self-reference]'
+
+
 def judge_identity(case, obs, live, ai, s):
     """C07: closure, one object one id, references denote the right object, temporaries do not share ids."""
     v = []
@@ -1635,12 +1738,15 @@ def judge_identity(case, obs, live, ai, s):
             v.append(f'two table entries under id {e["vid"]}')
         table[int(e['vid'])] = e
 
-    def resolves(r, where):
+    def resolves(r, where, target=_NO_TARGET):
         if r[0] is None:
             v.append(f'{where}: reference {r[1]!r} carries no id')
             return None
         if int(r[0]) not in table:
-            v.append(f'{where}: reference {r[1]!r} -> id {r[0]} has no entry in the variable table')
+            # the one way a reference can dangle in the model (C07.c07_dangling_only_locals): it was made for the locals
+            # dict of a frame whose variables were collected
+            tag = D31_TAG if any(target is d for d in live['frames_locals']) else ''
+            v.append(f'{where}: reference {r[1]!r} -> id {r[0]} has no entry in the variable table' + tag)
             return None
         return table[int(r[0])]
     seen_obj = {}
@@ -1650,10 +1756,11 @@ def judge_identity(case, obs, live, ai, s):
                 v.append(f'one object recorded twice: ids {seen_obj[e["obj"]]} and {vid}')
             seen_obj[e['obj']] = vid
 
-    def check_kids(where, children, kids):
+    def check_kids(where, children, kids, targets=None):
         """children must be, in order, references to the first kids (by name and by object identity)"""
+        tg = kids if kids is not None else targets
         for i, c in enumerate(children):
-            e = resolves(c, where)
+            e = resolves(c, where, tg[i][2] if tg is not None and i < len(tg) else _NO_TARGET)
             if kids is None or e is None:
                 continue
             if i >= len(kids):
@@ -1673,16 +1780,23 @@ def judge_identity(case, obs, live, ai, s):
         else:
             for r in f:
                 resolves(r, f'frame {fi}')
+    vals = live['watch_vals'][ai]
+    # values the watch expressions created (not alive before the run): which object each child reference was made for is
+    # known from the live value (only used to say WHAT a dangling reference was made for)
+    made = {}
+    for w, (kind, expr, val) in zip(s['watches'], vals):
+        if w['result'] is not None and w['result'][0] is not None and index_of(val) not in live['held']:
+            made[int(w['result'][0])] = val
     for vid, e in table.items():
         o = keep[e['obj']] if e['obj'] is not None else None
-        check_kids(f'variable {vid}', e['children'], ref.kids(o) if o is not None else None)
+        check_kids(f'variable {vid}', e['children'], ref.kids(o) if o is not None else None,
+                   ref.kids(made[vid]) if o is None and vid in made else None)
     # watches
-    vals = live['watch_vals'][ai]
     fresh = {}
     for w, (kind, expr, val) in zip(s['watches'], vals):
         if w['result'] is None:
             continue
-        e = resolves(w['result'], f'watch {expr!r}')
+        e = resolves(w['result'], f'watch {expr!r}', val)
         if e is None:
             continue
         vi = index_of(val)
@@ -1705,6 +1819,9 @@ def judge_identity(case, obs, live, ai, s):
                 got = [(c[1], table[int(c[0])]['value'] if c[0] is not None and int(c[0]) in table else None)
                        for c in e['children']]
                 want = [(n, ref.render(t)[:lim['str']]) for n, _, t in ks][:len(got)]
+                for i_, c in enumerate(e['children'][:len(want)]):
+                    if (c[0] is None or int(c[0]) not in table) and any(ks[i_][2] is d for d in live['frames_locals']):
+                        got[i_] = want[i_]        # reported above as a dangling reference to a frame's locals dict
                 if got != want:
                     v.append(f'watch {expr!r} -> id {k}: children {got[:4]} do not describe the value {want[:4]}')
                 else:
@@ -1852,7 +1969,8 @@ def has_outside(case):
 
 
 def refers_to_locals(case):
-    return bool(case.get('locals_self')) or any('locals()' in e for a in case['actions'] for _, e in watch_exprs(a))
+    return bool(case.get('locals_self')) or any('locals()' in e for a in case['actions'] for _, e in watch_exprs(a)) or \
+        any(isinstance(j, dict) for fr in (case.get('mock') or []) for _, j in fr)
 
 
 def snapshots_by_action(case, obs):
